@@ -21,7 +21,7 @@ EXPLANATION = (
     "a re-checked invariant for that (function, source, consumer) key; R11.2 every public accessor of the runner that reads "
     "evaluation results is wrapped by the lazy decorator (or only calls wrapped ones), whose wrapper tests the flag, evaluates, then "
     "calls, and the flag is set last on success only; R11.3 accessors are pure: no attribute store on runner/holders and no graph "
-    "mutation is reachable from an accessor other than through the evaluator. Does not decide: determinism inside sqlfluff/sqlparse/"
+    "mutation is reachable from an accessor other than through the evaluator; R11.4 the provider look-up answers from the session store and the source only, with no memo that would make a repeated run differ (= R13.5). Does not decide: determinism inside sqlfluff/sqlparse/"
     "networkx, order taint carried through graph insertion order, generated names of anonymous sub-queries."
 )
 RULE_TEXT = (
@@ -197,3 +197,5 @@ def rules(ctx: Ctx) -> None:
             ctx.ob("R11.3", f"accessor-pure:{f.cls.name}.{f.name}:cached", False, f.loc(), f"{f.name} is memoised by a decorator: later calls with other arguments or after state changes see stale results")
     ctx.ob("R11.3", "accessors-scanned", True, R.cls.loc(), f"{n_fn} functions reachable from {len(roots)} result accessors (not through the evaluator) scanned for stores and graph mutations", trivial=True)
     ctx.floor("functions reachable from result accessors", n_fn, 10)
+    # ---- R11.4 the provider look-up keeps no memory between runs (= R13.5) -------------------------------
+    common.import_rules(ctx, "C13", {"R13.5": "R11.4"})
